@@ -9,4 +9,5 @@ import ChmpyVerif.Props.C14
 import ChmpyVerif.Props.C15
 import ChmpyVerif.Props.C16
 import ChmpyVerif.Props.C17
+import ChmpyVerif.Props.C18
 import ChmpyVerif.Props.C20
